@@ -1,6 +1,7 @@
 package sim
 
 import (
+	"k8s.io/apimachinery/pkg/util/intstr"
 	"encoding/json"
 	"fmt"
 	"math/rand/v2"
@@ -536,6 +537,13 @@ func bodyC15(s *Sim) {
 			}
 			s.settleAll()
 		}
+		if e := s.Store.GetEDS(def.NS, def.Name); e != nil && e.Spec.Strategy.Canary != nil && e.Spec.Strategy.Canary.Replicas != nil && e.Spec.Strategy.Canary.Replicas.Type == intstr.Int && s.rngEnv.IntN(3) == 0 {
+			// the user asks for one more canary node: the selection runs again
+			n := e.Spec.Strategy.Canary.Replicas.IntValue() + 1
+			e.Spec.Strategy.Canary.Replicas = intOrStr(fmt.Sprint(n))
+			s.Store.ForceUpdate(e)
+			s.logf("env user.canary-replicas %d", n)
+		}
 		s.RunTask(CtrlEDS, key)
 	}
 	s.faultyDrain = false
@@ -564,6 +572,13 @@ func genC17(r *rand.Rand, tier string, idx int) *World {
 			nd.Taints = []string{"dedicated:NoSchedule"} // ineligible: pods injected here are clean-up work
 			nTaint++
 		}
+		if idx%2 == 1 {
+			// selected by the setting, and carrying an override annotation for the same container
+			nd.Labels = map[string]string{"zone": "a"}
+			if chance(r, 0.7) {
+				nd.Annotations = map[string]string{fmt.Sprintf(edsv1.ExtendedDaemonSetRessourceNodeAnnotationKey, "ns1", "foo", "main"): `{"limits":{"cpu":"2"},"requests":{"cpu":"400m"}}`}
+			}
+		}
 		w.Nodes = append(w.Nodes, nd)
 	}
 	tplKind := pick(r, "", "", "hasZone-or-not", "preferred-only")
@@ -576,7 +591,7 @@ func genC17(r *rand.Rand, tier string, idx int) *World {
 	w.Extra["batchFail"] = []string{"none", "some", "all"}[idx%3]
 	w.Extra["c17"] = "1"
 	w.Cfg = Config{ChaosSteps: pick(r, 30, 80), Kubelet: true, KubeletFaults: chance(r, 0.3), CLI: true, TemplateEdits: true, Stall: false, QuiesceRounds: 3, ERSTouch: chance(r, 0.5)}
-	w.Settings = []*SettingDef{{NS: "ns1", Name: "set0", Ref: "foo", Selector: map[string]string{"zone": "a"}, Container: "main", Cpu: "500m"}}
+	w.Settings = []*SettingDef{{NS: "ns1", Name: "set0", Ref: "foo", Selector: map[string]string{"zone": "a"}, Container: "main", Cpu: "500m", AgeSec: 10}}
 	return w
 }
 
@@ -591,6 +606,9 @@ func bodyC17(s *Sim) {
 		panic("c17: no replica set A")
 	}
 	rk := types.NamespacedName{Namespace: a.Namespace, Name: a.Name}
+	for _, st := range s.Store.Settings() {
+		s.RunTask(CtrlSetting, types.NamespacedName{Namespace: st.Namespace, Name: st.Name}) // valid before the first sync
+	}
 	// a sync with many simultaneous creations
 	s.RunTask(CtrlERS, rk)
 	s.settleAll()
